@@ -563,9 +563,10 @@ def monitor_c18(ops, outs):
 DURS = [MS, 2 ** 20, 5 * MS, 2 ** 23, 100 * MS, 2 ** 27, S, 2 ** 30, 3 * S, 10 * S, 2 ** 33, 60 * S, 2 ** 36, 3600 * S]
 DAY = 86400 * S
 YEAR = 365 * DAY
-# days .. decades; at most 140 years so that start + 2*rec stays below 2^63 ns (time.Duration ends at 292 years)
+# days .. decades; at most 130 years: the last arrival of a sweep is at most 1.125 rec after its start and may itself start a
+# recovery, whose deadline (now + rec) must stay below 2^63 ns after hx.Base (int64 ns; time.Duration ends at 292 years)
 LONG_DURS = [DAY, 7 * DAY, 2 ** 47, 30 * DAY, 2 ** 52, YEAR, 2 ** 55, 3 * YEAR, 10 * YEAR, 2 ** 59, 25 * YEAR, 2 ** 60, 50 * YEAR,
-             2 ** 61, 100 * YEAR, 140 * YEAR]
+             2 ** 61, 100 * YEAR, 130 * YEAR]
 CPS = [0, MS, 10 * MS, 100 * MS, 100 * MS, 100 * MS, S, 2 ** 30, 10 * S]
 GOOD = [200, 200, 200, 201, 204, 301, 404]
 BADC = [502, 504, 502, 504, 500, 503, 599]
